@@ -605,6 +605,7 @@ class Frame:
         self.self_atoms = None
         self.yield_cb = None
         self.summary = None
+        self.loop_depth = 0       # loops / comprehensions of this activation being executed
         self.call_alts = {}       # id(call node) -> alternatives of the most recent call there
         self.lookup_alts = {}     # id(lookup node) -> alternatives of a table lookup keyed by the head of a token list
         self.depth = 0
@@ -722,6 +723,8 @@ class Interp:
         self.heap = {}
         self.attr_order = {}
         self.mutated_fields = set()
+        self.mutating_classes = set()
+        self.restart = False
         self.summaries = {}
         self.active = {}
         self.done = set()
@@ -780,6 +783,7 @@ class Interp:
             cur = [join_stores(o_.next)]
         self.module.store = cur[0]
         self.in_module_init = False
+        self._snapshot = (dict(self.heap), {k: list(v) for k, v in self.attr_order.items()}, dict(self.fn_attrs))
         # mnemonic bindings: module-level partial(...) objects (by name or inside a module-level table).  That the integer
         # such a binding returns fits its instruction width is the theorem of C01 / C02 (layout rules), taken as given here.
         self.binding_atoms = set()
@@ -1414,10 +1418,12 @@ class Interp:
             if not ct:
                 break
             self.summary_depth += 1
+            fr.loop_depth += 1
             try:
                 o = self.exec_block(fr, st.body, [s_t])
             finally:
                 self.summary_depth -= 1
+                fr.loop_depth -= 1
             out.ret.extend(o.ret)
             out.exc.extend(o.exc)
             exits.extend(o.brk)
@@ -1485,7 +1491,11 @@ class Interp:
                 return
             fr.store = cin
             self.assign(fr, st.target, self.fresh_elem(fr, value, st), st)
-            o = self.exec_block(fr, st.body, [cin])
+            fr.loop_depth += 1
+            try:
+                o = self.exec_block(fr, st.body, [cin])
+            finally:
+                fr.loop_depth -= 1
             out.ret.extend(o.ret)
             out.exc.extend(o.exc)
             breaks.extend(o.brk)
@@ -1539,10 +1549,12 @@ class Interp:
                     fr.store = s
                     self.assign(fr, st.target, self.fresh_elem(fr, e, st), st)
                     self.unroll_depth += 1
+                    fr.loop_depth += 1
                     try:
                         o = self.exec_block(fr, st.body, [s])
                     finally:
                         self.unroll_depth -= 1
+                        fr.loop_depth -= 1
                     out.ret.extend(o.ret)
                     out.exc.extend(o.exc)
                     breaks.extend(o.brk)
@@ -1574,10 +1586,12 @@ class Interp:
             fr.store = s
             self.assign(fr, st.target, self.fresh_elem(fr, elems, st), st)
             self.summary_depth += 1
+            fr.loop_depth += 1
             try:
                 o = self.exec_block(fr, st.body, [s])
             finally:
                 self.summary_depth -= 1
+                fr.loop_depth -= 1
             out.ret.extend(o.ret)
             out.exc.extend(o.exc)
             breaks.extend(o.brk)
@@ -2406,6 +2420,13 @@ class Interp:
                 else:
                     if not weak:
                         self.mutated_fields.add((cls, attr))
+                    if base_class(cls) not in self.mutating_classes and base_class(cls) != self.line_class:
+                        # instances of this class change after they are built (a cursor, an accumulator, the program being
+                        # assembled): from the next round on their attributes are tracked flow-sensitively
+                        self.mutating_classes.add(base_class(cls))
+                        self.changed = True
+                        self.restart = True
+                        self.why.append(('mutating class', base_class(cls)))
                     if fr.summary is not None:
                         fr.summary.pure = False
                     site, sq = node, fr.qual
@@ -3271,6 +3292,7 @@ class Interp:
                 self.summary_depth += 1
             else:
                 self.unroll_depth += 1
+            fr.loop_depth += 1
             for e in todo:
                 saved = fr.store
                 s = saved.copy()
@@ -3295,8 +3317,10 @@ class Interp:
                         self.summary_depth -= 1
                     else:
                         self.unroll_depth -= 1
+                    fr.loop_depth -= 1
                     raise
                 fr.store = saved
+            fr.loop_depth -= 1
             if summary:
                 self.summary_depth -= 1
             else:
@@ -4602,7 +4626,7 @@ class Interp:
             # created exactly once while the module is initialised: the object keeps an identity (its attributes are its own)
             self.ident_counter += 1
             oname = '{}@{}'.format(cname, self.ident_counter)
-        elif not self.in_module_init and self.summary_depth == 0 and self.unroll_depth == 0 and cname != self.line_class \
+        elif not self.in_module_init and getattr(fr, 'loop_depth', 0) == 0 and cname != self.line_class and cname in self.mutating_classes \
                 and not self.is_exception_class(cname) and sum(1 for k in self.active if isinstance(k, tuple) and k[0] == fr.qual) <= 1:
             # created once per activation of the enclosing function: strong updates of its attributes are sound
             oname = '{}@s{}:{}'.format(cname, getattr(node, 'lineno', 0), getattr(node, 'col_offset', 0))
@@ -5694,6 +5718,22 @@ class Interp:
                 top.summary = Summary()
                 r = self.call_user(top, ('fn', entry), args, fn, None)
                 results.append((r, list(top.pending)))
+            if self.restart and not self.in_module_init:
+                # what was learnt changes how objects are modelled (not just how much is known): start over, so that nothing
+                # derived under the coarser model survives
+                self.restart = False
+                self.heap, self.attr_order, self.fn_attrs = dict(self._snapshot[0]), {k: list(v) for k, v in self._snapshot[1].items()}, dict(self._snapshot[2])
+                self.summaries = {}
+                self.cached_results = {}
+                for ev in (self.ev_store, self.ev_handler, self.ev_line, self.ev_relabel, self.ev_origin, self.ev_discharge, self.ev_construct,
+                           self.ev_dead_branch, self.call_edges, self.arity_mismatch):
+                    ev.clear()
+                self.approx_sites.clear()
+                self.unrefined_type_tests.clear()
+                self.reached.clear()
+                self.reached_nodes.clear()
+                self.mutated_fields.clear()
+                continue
             if not self.changed:
                 return results
         raise AnalysisError('abstract interpretation of {} did not reach a fixed point in {} rounds (still changing: {})'.format(
